@@ -16,6 +16,9 @@ package main
 //                 outgoing transaction), every client bursting requests concurrently (keep-alive, user list,
 //                 message board up to 60 000 bytes, file list, public chat, private messages); at quiescence
 //                 every stream is re-framed (Go reference + Lean) and a request-id ledger per client judged.
+//  wrap-replies   1-3 clients stay connected while the 16-bit id space wraps (counter moved with the test hook) and 2-4
+//                 more log in; then requests from everybody: each reply must arrive on the connection that sent the
+//                 request, exactly once; nobody may receive a reply to an id it never sent; a broadcast reaches all once.
 
 import (
 	"bytes"
@@ -453,9 +456,179 @@ func runOutboxStress(c *Case) {
 	c.Sample(map[string]any{"family": "outbox-stress", "clients": n, "requests_per_client": k, "board_bytes": len(board), "files": nfiles, "chat_lines": len(chatLines), "bytes_received": total})
 }
 
+// ---------------------------------------------------------------- replies after the id space wrapped
+
+type wrapClient struct {
+	name string
+	wc   *WireClient
+	sent map[uint32]int
+}
+
+// awaitOwnReply waits until the reply to request id arrives on the connection that sent it.  If meanwhile a
+// reply carrying that id shows up on ANOTHER connection the reply was misdirected (concrete violation, no wait).
+func awaitOwnReply(c *Case, all []*wrapClient, who *wrapClient, id uint32) bool {
+	verdict := ""
+	waitFor(longWait, func() bool {
+		for _, x := range all {
+			_, trans, _, err := x.wc.Received()
+			if err != nil {
+				verdict = "unframed"
+				return true
+			}
+			for i := range trans {
+				if trans[i].IsReply == 1 && tranID(&trans[i]) == id {
+					if x == who {
+						verdict = "ok"
+					} else {
+						verdict = "misdirected to " + x.name
+					}
+					return true
+				}
+			}
+		}
+		return false
+	})
+	switch {
+	case verdict == "ok":
+		return true
+	case verdict == "unframed":
+		c.Violation("interleaved-transactions", "the stream written to a client is not a sequence of whole transactions")
+	case verdict == "":
+		c.Violation("reply-missing-under-load", fmt.Sprintf("request %d of %s (type %d) got no reply on its connection", id, who.name, who.sent[id]))
+	default:
+		c.Violation("reply-misdirected", fmt.Sprintf("the reply to request %d, sent by %s (type %d), was written to another connection (%s): that client received a reply carrying an id it never sent, and the request stays unanswered", id, who.name, who.sent[id], verdict))
+	}
+	return false
+}
+
+// runWrapReplies: a client stays connected while the 16-bit id space wraps (counter moved with the test hook) and
+// further users log in; afterwards every reply must still arrive on the connection that sent the request, exactly
+// once, and no connection may see a reply to an id it never sent.  Broadcasts reach everybody once.
+func runWrapReplies(c *Case) {
+	r := c.R
+	ts, err := newTS(TSOpt{Board: string(bytes.Repeat([]byte("board "), r.Pick(1, 500, 6000)))})
+	if err != nil {
+		panic(err)
+	}
+	defer ts.Close()
+	mgr := ts.Srv.ClientMgr.(*hotline.MemClientMgr)
+	var all []*wrapClient
+	nextID := uint32(1000)
+	login := func(name string) *wrapClient {
+		wc, err := loginWire(ts, fmt.Sprintf("10.7.0.%d:4000", len(all)+1), "guest", "", fld(hotline.FieldUserName, []byte(name)))
+		if err != nil {
+			c.Note("login_error", err.Error())
+			c.Violation("login-reply-missing", fmt.Sprintf("the login of %s was not answered on its own connection", name))
+			return nil
+		}
+		w := &wrapClient{name: name, wc: wc, sent: map[uint32]int{1: 107}}
+		all = append(all, w)
+		return w
+	}
+	ask := func(w *wrapClient, ty hotline.TranType, fields ...hotline.Field) bool {
+		nextID++
+		t := mkTran(ty, nextID, fields...)
+		w.sent[nextID] = tranType(&t)
+		w.wc.Conn.Feed(encTran(t))
+		return awaitOwnReply(c, all, w, nextID)
+	}
+	// long-lived users at the low ids
+	nOld := 1 + r.Intn(3)
+	for i := 0; i < nOld; i++ {
+		w := login(fmt.Sprintf("old%d", i))
+		if w == nil || !ask(w, hotline.TranKeepAlive) {
+			return
+		}
+	}
+	// the counter comes round: 65 535 (or k·65 536 - 1, or 2^32 - 1) connections have been made over the lifetime
+	start := uint32(r.Pick(65535, 65534, 131071, 4294967295, 4294967294, 196607))
+	mgr.VerifSetNextClientID(start)
+	nNew := 2 + r.Intn(3)
+	for i := 0; i < nNew; i++ {
+		if login(fmt.Sprintf("new%d", i)) == nil {
+			return
+		}
+	}
+	c.Note("counter_set_to", start)
+	c.Note("clients", len(all))
+	// requests from everybody, the long-lived users first
+	kinds := []hotline.TranType{hotline.TranKeepAlive, hotline.TranGetUserNameList, hotline.TranGetMsgs, hotline.TranGetFileNameList}
+	for round := 0; round < 2; round++ {
+		for _, w := range all {
+			if !ask(w, kinds[r.Intn(len(kinds))]) {
+				return
+			}
+		}
+	}
+	// a broadcast: everybody connected gets the line exactly once
+	line := fmt.Sprintf("wrapline-%d", r.Intn(1<<30))
+	nextID++
+	all[len(all)-1].sent[nextID] = 105
+	all[len(all)-1].wc.Conn.Feed(encTran(mkTran(hotline.TranChatSend, nextID, fld(hotline.FieldData, []byte(line)))))
+	count := func(w *wrapClient) int {
+		_, trans, _, _ := w.wc.Received()
+		n := 0
+		for i := range trans {
+			if d, _ := fieldOf(&trans[i], 101); trans[i].IsReply == 0 && tranType(&trans[i]) == 106 && bytes.Contains(d, []byte(line)) {
+				n++
+			}
+		}
+		return n
+	}
+	waitFor(longWait, func() bool {
+		for _, w := range all {
+			if count(w) < 1 {
+				return false
+			}
+		}
+		return true
+	})
+	for _, w := range all {
+		w.wc.Quiesce(10*time.Millisecond, time.Second)
+		if n := count(w); n != 1 {
+			c.Violation("broadcast-delivery-count", fmt.Sprintf("%s received the public chat line %d times after the id space wrapped, expected exactly once", w.name, n))
+			return
+		}
+	}
+	// ledger over everything each connection received
+	for _, w := range all {
+		_, trans, rest, err := w.wc.Received()
+		if err != nil || len(rest) != 0 {
+			c.Violation("interleaved-transactions", "the stream written to a client is not a sequence of whole transactions")
+			return
+		}
+		seen := map[uint32]int{}
+		for i := range trans {
+			if trans[i].IsReply != 1 {
+				continue
+			}
+			id := tranID(&trans[i])
+			if _, mine := w.sent[id]; !mine {
+				c.Violation("reply-misdirected", fmt.Sprintf("%s received a reply carrying id %d, which it never sent", w.name, id))
+				return
+			}
+			seen[id]++
+		}
+		for id, ty := range w.sent {
+			if (replyBearing(ty) || ty == 107) && seen[id] != 1 {
+				c.Violation("reply-duplicated", fmt.Sprintf("%s: request %d (type %d) has %d replies on its connection, expected exactly one", w.name, id, ty, seen[id]))
+				return
+			}
+		}
+	}
+	for _, w := range all {
+		w.wc.Conn.EOF()
+	}
+	for _, w := range all {
+		w.wc.WaitDone(longWait)
+	}
+	c.Nontrivial(fmt.Sprintf("wrap-replies start=%d old=%d new=%d %x", start, nOld, nNew, c.Seed))
+	c.Dist(fmt.Sprintf("wrap-replies/start=%d", start))
+}
+
 func init() {
 	props["C14"] = func(x *Ctx) {
-		x.rule = "forced-merge: transaction A (encoded size small, 32 KiB ± 3, 32-64 KiB, one 65 535-byte field, 200-800 fields, several fields totalling up to ~190 KB) written by the real sendTransaction; a second transaction B for the same client is sent the moment A's first Write call returns; reply-ctors: random requests through NewReply / NewErrReply / NewField; outbox-stress: 2-6 real connections, 8-37 concurrent requests each (keep-alive, user list, message board of 0..60 000 bytes, file list of 0..700 entries, public chat lines of 0..8000 bytes, private messages) through the real processOutbox. non-trivial = every forced merge / stress run (distinct sizes and contents); distinct = distinct (sizes, content hash) / run parameters"
+		x.rule = "forced-merge: transaction A (encoded size small, 32 KiB ± 3, 32-64 KiB, one 65 535-byte field, 200-800 fields, several fields totalling up to ~190 KB) written by the real sendTransaction; a second transaction B for the same client is sent the moment A's first Write call returns; reply-ctors: random requests through NewReply / NewErrReply / NewField; outbox-stress: 2-6 real connections, 8-37 concurrent requests each (keep-alive, user list, message board of 0..60 000 bytes, file list of 0..700 entries, public chat lines of 0..8000 bytes, private messages) through the real processOutbox. wrap-replies: 1-3 long-lived connections, the id counter set to 65 535 / k·65 536-1 / 2^32-1, 2-4 further logins, then keep-alive / user list / message board / file list requests from everybody and one public chat line, judged by a per-connection reply ledger; non-trivial = every forced merge / stress / wrap run (distinct sizes and contents); distinct = distinct (sizes, content hash) / run parameters"
 		x.assume = []string{
 			"a single Write call on a connection is atomic (net.Conn: Go's fd write lock); the in-memory connection used here has that behaviour and records every call",
 			"goroutine schedules are sampled (stress) or forced at the one point that matters (between two Write calls of one transaction); fairness of the Go scheduler, memory pressure and kernel-level partial writes are outside the model",
@@ -464,5 +637,6 @@ func init() {
 		x.Add(&Family{Name: "forced-merge", Quick: 500, Thor: 8000, Run: runForcedMerge})
 		x.Add(&Family{Name: "reply-ctors", Quick: 3000, Thor: 100000, Run: runReplyCtors})
 		x.Add(&Family{Name: "outbox-stress", Quick: 80, Thor: 1500, Run: runOutboxStress})
+		x.Add(&Family{Name: "wrap-replies", Quick: 40, Thor: 800, Run: runWrapReplies})
 	}
 }
